@@ -342,6 +342,103 @@ theorem busy_board_refuses_next_post (u : User) (b b' : Board) (w : UInt32) (now
 /-- non-vacuity: a post at `fixedNow` on a board with 4001 users opens a window that is still running 100 s later. -/
 example : fixedNow + 100 ≤ Spec.cdTime (afterPost { plainBoard nameSrc with nuser := 4001 } 0 fixedNow) := by decide
 
+/-! ### the friend list of a board: what a reload leaves in shared memory (histories on the list) -/
+
+/-- cache.HbflReload builds the new list in a zeroed local array and copies it over the whole row. -/
+theorem source_hbfl_replaces_row : Gen.WriteGuards.hbflReloadReplacesRow = true := by decide
+
+/-- since fix 1b78546 a missing list file is an empty list: HbflReload does not return early. -/
+theorem source_hbfl_missing_file_replaces : Gen.WriteGuards.hbflMissingFileKeepsRow = false := by decide
+
+/-- after a reload the friend decision is membership among the first MAX_FRIEND names of the file that resolve to a
+user (no file: nobody) — whatever the row held before. -/
+theorem friend_after_reload (row : List Nat) (file : Option (List Nat)) (now uid : Nat) :
+    hbflScan uid (((hbflReload true false row file now).drop 1).take MAX_FRIEND) = true ↔ uid ∈ hbflFill (file.getD []) := by
+  have hl := hbflFill_length (file.getD [])
+  have e : hbflReload true false row file now =
+      now :: (hbflFill (file.getD []) ++ List.replicate (MAX_FRIEND - (hbflFill (file.getD [])).length) 0) := by
+    cases file <;> simp [hbflReload]
+  rw [e]
+  simp only [List.drop_succ_cons, List.drop_zero]
+  rw [List.take_of_length_le (by simp; omega)]
+  rw [hbflScan_nonzero_append _ _ _ (hbflFill_nonzero _), hbflScan_zeros]
+  simp
+
+/-- after a reload with the list file gone nobody is a friend. -/
+theorem no_friend_after_reload_without_file (row : List Nat) (now uid : Nat) :
+    hbflScan uid (((hbflReload true false row none now).drop 1).take MAX_FRIEND) = false := by
+  cases h : hbflScan uid (((hbflReload true false row none now).drop 1).take MAX_FRIEND)
+  · rfl
+  · have := (friend_after_reload row none now uid).mp h
+    simp [hbflFill] at this
+
+/-- the look-up of an expired row (the reload inside IsHiddenBoardFriend) answers from the file alone. -/
+theorem friend_lookup_after_expiry (row : List Nat) (file : Option (List Nat)) (now uid : Nat)
+    (hexp : ((row.headD 0 : Nat) : Int) < (now : Int) - (HBFLexpire : Int)) :
+    (isHiddenBoardFriend true false row file uid now).1 = true ↔ uid ∈ hbflFill (file.getD []) := by
+  unfold isHiddenBoardFriend
+  simp only [hexp, if_true]
+  exact friend_after_reload row file now uid
+
+/-- the written board of an operation. -/
+def Op.written (op : Op) (x : Row) : Board :=
+  match op with
+  | .crosspost => x.tgt
+  | _ => x.src
+
+/-- A user who is not among the (first MAX_FRIEND resolvable) names of the list file is refused by all four operations
+on a restricted-post board once the list has been loaded again (or found gone) — whatever history the shared-memory row has behind
+it (`row` is arbitrary) — unless one of the rule set's own exemptions applies (sysop, default board, guest-post,
+hidden). -/
+theorem removed_friend_refused (op : Op) (x : Row) (row : List Nat) (file : Option (List Nat)) (now uid : Nat)
+    (hfriend : (op.written x).friend = hbflScan uid (((hbflReload true false row file now).drop 1).take MAX_FRIEND))
+    (hnot : uid ∉ hbflFill (file.getD []))
+    (hr : Spec.restrictedPost (op.written x)) (hh : ¬ Spec.hidden (op.written x))
+    (hd : ¬ Spec.defaultBoard (op.written x)) (hg : ¬ Spec.guestPost (op.written x)) (hs : ¬ Spec.sysop x.u) :
+    ¬ accepted op x := by
+  intro hacc
+  have hf : (op.written x).friend = false := by
+    rw [hfriend]
+    cases h : hbflScan uid (((hbflReload true false row file now).drop 1).take MAX_FRIEND)
+    · rfl
+    · exact absurd ((friend_after_reload row file now uid).mp h) hnot
+  have he := write_accepted_implies_rules_partial op x hacc
+  have hp : Spec.postRules x.u (op.written x) x.now := by
+    cases op <;> simp only [enforcedFor, rulesWith, Op.written] at he ⊢
+    · exact he.2.2.1
+    · exact he.2.2.1
+    · exact he.1.2.2.1
+    · exact he.2.2.1
+  unfold Spec.postRules at hp
+  rcases hp with h | ⟨_, h | h | ⟨_, h | ⟨h, _⟩⟩⟩
+  · exact hs h
+  · exact hd h
+  · exact hg h
+  · exact hh h
+  · have := h hr
+    rw [hf] at this
+    exact absurd this (by decide)
+
+/-- non-vacuity: user 40 taken off the list [2, 40] -> [2]; the old row still names him. -/
+example : (40 : Nat) ∉ hbflFill [2] ∧
+    hbflScan 40 (((hbflReload true false (hbflReload true false (hbflFresh 5) (some [2, 40]) 6) (some [2]) 7).drop 1).take MAX_FRIEND) = false := by
+  decide
+
+/-- The broken rule, if the row were filled in place (what a regenerated `hbflReloadReplacesRow = false` means):
+user 40 is taken off the list [2, 40] -> [2], the list is loaded again, and he is still found. -/
+theorem stale_friend_if_filled_in_place :
+    ∃ row es uid now, uid ≠ 0 ∧ uid ∉ hbflFill es ∧
+      hbflScan uid (((hbflReload false false row (some es) now).drop 1).take MAX_FRIEND) = true :=
+  ⟨hbflReload true false (hbflFresh 5) (some [2, 40]) 6, [2], 40, 7, by decide, by decide, by decide⟩
+
+/-- BEFORE fix 1b78546 (finding stale-friendlist:file-removed; what a regenerated `hbflMissingFileKeepsRow = true`
+means): when the list file no longer existed HbflReload left the row — friends and load time — as it was, so the
+friends of a removed list were still found. -/
+theorem before_fix_removed_list_kept_friends :
+    (∀ r row now, hbflReload r true row none now = row) ∧
+    ∃ row uid now, uid ≠ 0 ∧ hbflScan uid (((hbflReload true true row none now).drop 1).take MAX_FRIEND) = true :=
+  ⟨fun _ _ _ => rfl, hbflReload true false (hbflFresh 5) (some [40]) 6, 40, 7, by decide, by decide⟩
+
 /-! ### non-vacuity: the base row of the decision table is accepted by all four operations and satisfies the rules -/
 
 def baseRow : Row := { witnessUnverified with u := { witnessUnverified.u with level := 0o31 } }
